@@ -7,7 +7,9 @@ import random
 import re
 
 import celgen
-from vlib import GOENV, REPO, build_govalid, check_properties_file, go_build, known_findings, run, scratch
+import subprocess
+
+from vlib import COQ, GOENV, REPO, build_govalid, check_properties_file, coq_make, go_build, known_findings, run, scratch
 
 TRUSTED = [
     "cel-go v0.26.1 as the reference evaluator (value bound to the field, this to a map of the struct's fields)",
@@ -44,9 +46,63 @@ def classes(vtype, expr):
         c.add("cel_in_int_list")
     if re.search(r"(this\.M|value)\.(all|exists|exists_one|filter|map)\(", expr) and (vtype == "map[string]int" or "this.M." in expr):
         c.add("cel_map_iterates_values")
-    if "has(" in expr:
-        c.add("cel_has_macro")
+    if re.search(r"string\(this\.D\)", expr) or (vtype == "time.Duration" and "string(value)" in expr):
+        c.add("cel_string_of_duration")
     return c
+
+
+def coq_side(res, d, gh, sp, mod, obs_text, scen, shards=12):
+    """cel-go's AST, the emitted condition and every observation as Coq terms; certificates and model comparisons
+    evaluated by coqc.  Returns {scenario id: report}."""
+    ok, out = coq_make()
+    if not ok:
+        res.violation({"kind": "proof-break", "what": "the Coq development no longer builds", "log_tail": out[-3000:]}, found_input=False)
+        return None
+    obs_path = os.path.join(d, "obs.txt")
+    open(obs_path, "w").write(obs_text)
+    n = len(scen)
+    size = max(1, (n + shards - 1) // shards)
+    jobs = []
+    for k in range(0, n, size):
+        sub = os.path.join(d, "coq%d" % (k // size))
+        os.makedirs(sub, exist_ok=True)
+        part = os.path.join(sub, "scen.json")
+        json.dump({"scenarios": scen[k:k + size]}, open(part, "w"))
+        run([gh, "celcoq", "-in", part, "-dir", mod, "-obs", obs_path, "-coq", os.path.join(sub, "Run.v")], check=True)
+        info = json.load(open(os.path.join(sub, "Run.json")))
+        lines = ["From GVRun Require Import Run.",
+                 "From GV Require Import Base.Bytes Cel.Syntax Cel.CelSem Cel.GoSem Cel.Translate Cel.Env Cel.Typing Cel.Harness."]
+        for it in info:
+            i = it["index"]
+            lines.append("Definition rep_%d := Eval vm_compute in check_case cs_%d." % (i, i))
+            lines.append("Theorem cert_%d : cr_cert (check_case cs_%d) = cr_cert rep_%d. Proof. vm_cast_no_check (eq_refl (cr_cert rep_%d)). Qed." % (i, i, i, i))
+        lines.append("Definition all_reports := [%s]." % "; ".join("report_row %d%%nat rep_%d" % (it["index"], it["index"]) for it in info))
+        lines.append("Set Printing Width 1000000. Set Printing Depth 1000000.")
+        lines.append("Eval vm_compute in all_reports.")
+        open(os.path.join(sub, "Check.v"), "w").write("\n".join(lines) + "\n")
+        base = "coqc -Q %s GV -Q %s GVRun -w -notation-overridden" % (os.path.join(COQ, "theories"), sub)
+        jobs.append((sub, info, subprocess.Popen("cd %s && %s Run.v && %s Check.v" % (sub, base, base), shell=True,
+                                                 stdout=subprocess.PIPE, stderr=subprocess.PIPE, text=True)))
+    reports = {}
+    pat = re.compile(r"\((\d+), \[(\d+); (\d+); (\d+); (\d+); (\d+); (\d+)\], (\[[^\]]*\]), (\[[^\]]*\]), (\[[^\]]*\])\)")
+    for sub, info, pr in jobs:
+        out, err = pr.communicate(timeout=3000)
+        if pr.returncode != 0:
+            raise RuntimeError("C10 Coq run failed in %s: %s" % (sub, (out + err)[-3000:]))
+        txt = out.replace("\n", " ")
+        got = {}
+        for m in pat.finditer(txt):
+            nums = lambda s: [int(x) for x in re.findall(r"\d+", s)]
+            got[int(m.group(1))] = {"model_generates": m.group(2) == "1", "cert": m.group(3) == "1", "fragment": m.group(4) == "1",
+                                    "structs_ok": m.group(5) == "1", "cel_evaluated": int(m.group(6)), "go_evaluated": int(m.group(7)),
+                                    "cel_mismatch": nums(m.group(8)), "go_mismatch": nums(m.group(9)), "spec_violation": nums(m.group(10))}
+        if len(got) != len(info):
+            raise RuntimeError("could not parse the Coq reports in %s: %s" % (sub, out[-2000:]))
+        for it in info:
+            r = got[it["index"]]
+            r.update(it)
+            reports[it["id"]] = r
+    return reports
 
 
 def check(res):
@@ -96,6 +152,7 @@ def check(res):
     p = run([exe, sp], cwd=mod, timeout=3000)
     if p.returncode != 0:
         raise RuntimeError("celdrv failed: " + (p.stderr or "")[-2500:])
+    coq = coq_side(res, d, gh, sp, mod, p.stdout, scen)
     per = {}
     for line in p.stdout.splitlines():
         key, g, c = line.split("\t")
@@ -142,6 +199,55 @@ def check(res):
                        "case": scen_by_id[sid]["structs"][0]["cases"][ci], "cel_go_result": c, "compiled_validator": g,
                        "syntactic_classes": sorted(cls), "disagreeing_points": len(bad),
                        "what": "cel-go yields a boolean for this binding but the generated check does not report the CEL error exactly when it is false"})
+    # ---- the Coq side: generator model vs generator (certificates, loudness), reference model vs cel-go, Go model vs compiled code
+    if coq is not None:
+        cstat = {"certified": 0, "in_proved_fragment": 0, "in_fragment_and_certified": 0, "reference_model_points": 0,
+                 "go_model_points": 0, "model_rejects_and_generator_rejects": 0}
+        for sid in info:
+            r = coq.get(sid)
+            if r is None:
+                continue
+            vt, e = info[sid]
+            compiled = sid in ok_ids
+            base = {"field_type": vt, "expression": e, "generated_condition": r.get("cond")}
+            if os.environ.get("VERIF_C10_DUMP"):
+                open(os.environ["VERIF_C10_DUMP"], "a").write(json.dumps(dict(r, vt=vt, expr=e, compiled=compiled)) + "\n")
+            if not r["structs_ok"]:
+                raise RuntimeError("ill-typed struct value in the corpus of " + sid)
+            if r["model_generates"] != r["generated"]:
+                if r["generated"] and compiled:
+                    res.violation(dict(base, kind="spec-violation", what="the generator model (Cel/Translate.v: cel_condition) stops generation for this expression "
+                                       "(a construct without a faithful Go rendering, or rejected by the pre-filter / by cel-go), yet govalid emitted a check and it compiles: "
+                                       "an untranslatable expression did not fail loudly"))
+                elif not r["generated"]:
+                    res.violation(dict(base, kind="correspondence-break", correspondence="cel_condition (Cel/Translate.v) vs internal/validator/rules/cel.go",
+                                       what="the model produces a condition but govalid produced no file"), found_input=False)
+                continue
+            if not r["generated"]:
+                cstat["model_rejects_and_generator_rejects"] += 1
+                continue
+            if r["cert"]:
+                cstat["certified"] += 1
+            elif not r["spec_violation"]:
+                res.violation(dict(base, kind="correspondence-break", correspondence="certificate cr_cert: emitted condition = cel_condition (Cel/Translate.v)",
+                                   theorem="C10_translation_sound applies only to conditions equal to the model's", in_proved_fragment=r["fragment"],
+                                   what="the condition emitted by the rebuilt govalid differs from the translator model's output; no binding of the grid separates it from cel-go"),
+                              found_input=False)
+            if r["fragment"]:
+                cstat["in_proved_fragment"] += 1
+                if r["cert"]:
+                    cstat["in_fragment_and_certified"] += 1
+            cstat["reference_model_points"] += r["cel_evaluated"]
+            cstat["go_model_points"] += r["go_evaluated"]
+            if r["cel_mismatch"]:
+                res.violation(dict(base, kind="correspondence-break", correspondence="ceval (Cel/CelSem.v) vs cel-go Program.Eval",
+                                   rows=r["cel_mismatch"][:5], what="the reference model of CEL disagrees with cel-go on these bindings"), found_input=False)
+            if compiled and r["go_mismatch"]:
+                res.violation(dict(base, kind="correspondence-break", correspondence="geval (Cel/GoSem.v) vs the compiled validator",
+                                   rows=r["go_mismatch"][:5], what="the model of the emitted Go condition disagrees with the compiled code on these bindings"), found_input=False)
+        res.coverage["coq"] = cstat
+        res.obligations += cstat["certified"]
+        res.discharged += cstat["certified"]
     res.coverage.update({
         "evaluations": sum(len(v) for v in per.values()), "distinct_nontrivial": stats["run"],
         "rule": "typed CEL grammar (comparison, && || !, unary minus, + - * / %%, parenthesised nesting, size, contains/startsWith/endsWith/matches, "
